@@ -191,7 +191,8 @@ pub fn run(tier: Tier, shard: Shard, stats: &mut Stats) {
                     let set = charset(k, c);
                     let set_s: String = set.iter().collect();
                     let x = "x".repeat(rest);
-                    let tpl = if lead { format!("{x}{{wide_bar}}") } else { format!("{{wide_bar}}{x}") };
+                    // (k == 3: the rest of the line ends with a brace before a line break, which stands for itself)
+                    let tpl = if lead { format!("{x}{{wide_bar}}") } else if rest >= 1 { format!("{{wide_bar}}{}{{\nyy", &x[1..]) } else { format!("{{wide_bar}}{x}") };
                     let style = ProgressStyle::with_template(&tpl).unwrap().progress_chars(&set_s);
                     let pb = bar_on(&catcher, Some(7), style);
                     for pos in [0u64, 1, 3, 6, 7, 9] {
@@ -206,7 +207,7 @@ pub fn run(tier: Tier, shard: Shard, stats: &mut Stats) {
                             Err(p) => stats.violation(Violation { class: format!("panic: {}", panic_class(&p)), config: "wide_bar".into(), history: hist, detail: p }),
                             Ok(lines) => {
                                 let line = lines.first().cloned().unwrap_or_default();
-                                let cols: usize = line.chars().map(|ch| if ch == 'x' || set.contains(&ch) && c == 1 { 1 } else { 2 }).sum();
+                                let cols: usize = line.chars().map(|ch| if ch == 'x' || ch == '{' || set.contains(&ch) && c == 1 { 1 } else { 2 }).sum();
                                 let w = tw as usize;
                                 if rest <= w {
                                     let want = w - ((w - rest) % c);
@@ -215,7 +216,7 @@ pub fn run(tier: Tier, shard: Shard, stats: &mut Stats) {
                                         stats.violation(Violation { class: class.into(), config: "wide_bar".into(), history: hist, detail: format!("{cols} columns, expected {want}: {:?}", line) });
                                         continue;
                                     }
-                                    let inner: String = line.chars().filter(|&ch| ch != 'x').collect();
+                                    let inner: String = line.chars().filter(|&ch| ch != 'x' && ch != '{').collect();
                                     match judge(&inner, &set, (w - rest) / c * c, c, pos, 7) {
                                         Ok((filled, partial)) => stats.state_outcome(hash_of(&("wide", tw, rest, c, k, filled, partial)), filled > 0),
                                         Err((class, detail)) => stats.violation(Violation { class: format!("wide_bar {class}"), config: "wide_bar".into(), history: hist, detail }),
